@@ -1,4 +1,4 @@
-//@props C04 C09 C13 C16 C17 C18 C19
+//@props C02 C03 C04 C05 C06 C07 C08 C09 C11 C12 C13 C14 C15 C16 C17 C18 C19
 //@strip-attrs derive|non_exhaustive|error :: derive output (thiserror, Debug, Clone, ..) is outside Verus; variants and fields are kept
 //@derive-keep Clone|Copy
 //@hoist-closure-patterns :: closure parameter patterns hoisted into a let (Verus accepts only variables as closure parameters)
@@ -354,7 +354,7 @@ pub fn create_shader_module_embedded(
 }
 //@end
 
-//@fn lib.rs::create_shader_module_inner props=C04,C09,C13,C16,C17,C18
+//@fn lib.rs::create_shader_module_inner props=C02,C03,C04,C05,C06,C07,C08,C09,C11,C12,C13,C14,C15,C16,C17,C18
 «#[verifier::rlimit(300)]»
 fn create_shader_module_inner(
     wgsl_source: &str,
@@ -364,7 +364,7 @@ fn create_shader_module_inner(
     requires
         gen_pre(wgsl_source@, opt_view(wgsl_include_path), options), // [C17.pre] documented feature set; and (C01, not claimed) the token stream parses as a Rust file
     ensures
-        gen_post(wgsl_source@, opt_view(wgsl_include_path), options, r), // [C17.gate] [C09.noninterference] [C16.source] [C18.function] [C04.pipeline-layout] [C13.emission] parse error -> ParseError; validator rejects -> ValidationError; otherwise the result does not depend on options.validate, depends on the other options only through the struct switches and the printer choice, and is the printed token stream of output_toks»
+        gen_post(wgsl_source@, opt_view(wgsl_include_path), options, r), // [C17.gate] [C09.noninterference] [C16.source] [C18.function] [C04.pipeline-layout] [C13.emission] [C02.assembled] [C03.assembled] [C05.assembled] [C06.assembled] [C07.assembled] [C08.assembled] [C11.assembled] [C12.assembled] [C14.assembled] [C15.assembled] (assembled: the section each of these properties is observed in - structs, constants, overrides, bind groups with the stage map, vertex methods, compute module, entry constants, vertex and fragment states - is in the output exactly once, unmodified, and a bind-group error is returned as it is) parse error -> ParseError; validator rejects -> ValidationError; otherwise the result does not depend on options.validate, depends on the other options only through the struct switches and the printer choice, and is the printed token stream of output_toks»
 {
     «broadcast use vstd::laws_cmp::group_laws_cmp, vstd::std_specs::btree::group_btree_axioms;
     reveal(gen_post);
